@@ -37,10 +37,11 @@ class Outcomes(object):
     """Outcome of an action execution as a pure function of its identity (task, item, attempt,
     loop key) and a seed, so twin runs and different schedules agree on what every action returns."""
 
-    def __init__(self, seed=0, p_fail=0.2, overrides=None, force=None, exotic=0.0):
+    def __init__(self, seed=0, p_fail=0.2, overrides=None, force=None, exotic=0.0, exotic_kinds=None):
         self.seed = seed
         self.p_fail = p_fail
         self.exotic = exotic  # share of failures reported as timeout / abandoned instead of failed
+        self.exotic_kinds = list(exotic_kinds or ["timeout", "abandoned"])  # ... or e.g. canceled (on the provider side)
         self.overrides = overrides or {}  # "task/item/attempt/loop" -> [status, result]
         self.force = force  # optional callable(ident) -> (status, result) | None
 
@@ -64,7 +65,7 @@ class Outcomes(object):
         x = h64(self.seed, "o", ident)
         status = "failed" if (x % 1000) / 1000.0 < self.p_fail else "succeeded"
         if status == "failed" and self.exotic and ((x >> 20) % 100) < 100 * self.exotic:
-            status = ["timeout", "abandoned"][(x >> 28) % 2]
+            status = self.exotic_kinds[(x >> 28) % len(self.exotic_kinds)]
         return status, {"v": (x >> 12) % 2, "id": ident}
 
 
